@@ -22,8 +22,11 @@
     [C05_setup_kernel_is_translation]: for every kernel offset, section table, state and allocator behaviour the
     regenerated function ends in the model's machine state with the model's error ([T.err_of]: nil iff 0), having made
     exactly the model's seam calls in the model's order; a stray access of the model is a panic.  Hypotheses: 64-bit
-    offset, addresses, sizes and reservation cursor; fuel above the page count of every section and of the reserved
-    range ([K.fuel_ok]: fuel is an artefact of the translation of loops).
+    offset, addresses, sizes and reservation cursor; fuel above the page count of every section that is VISITED - the
+    non-empty ones, [K.nonempty secs] - and of the reserved range ([K.fuel_ok]: fuel is an artefact of the translation
+    of loops).  Empty entries, in particular the all-zero null section every ELF section table starts with (whose page
+    count `size - 1` wraps to 2^52), are never delivered by the visitor and need no fuel, so the hypothesis is
+    satisfiable for real tables with small fuel (example C05_null_section_table_nonvacuous).
     Statements only; proofs are in Vmm/KernelTrans.v. *)
 From Coq Require Import NArith String List Bool.
 From FF Require Import Lib.Word Lib.GoOps Gen.Consts_mm_vmm Gen.Trans_vmm_kernel Vmm.Pt.
